@@ -847,9 +847,10 @@ impl Values<bool> for Intervals<bool> {
 
 impl Values<i64> for Intervals<i64> {
     fn values_len(&self) -> Option<usize> {
-        let min = (*self.min()?).clamp(-(self.capacity as i64), self.capacity as i64);
-        let max = (*self.max()?).clamp(-(self.capacity as i64), self.capacity as i64);
-        Some((max - min) as usize)
+        // The number of values, counted up to the capacity (the bounds themselves can be arbitrarily far apart or far from 0)
+        let min = *self.min()?;
+        let max = *self.max()?;
+        Some(max.saturating_sub(min).clamp(0, self.capacity as i64) as usize)
     }
     fn max_value_len(&self) -> usize {
         self.capacity
